@@ -5,6 +5,8 @@ REGISTRY = {
     'C05': ['thread_pool', 'strand'],
     'C07': ['strand'],
     'C08': ['thread_pool'],
+    'C10': ['any'],
+    'C16': ['event', 'base_core'],
     'C19': ['atomic'],
 }
 LEVEL = {'C04': 'other'}
@@ -62,6 +64,26 @@ CLAIMS = {
         'note': 'std::mutex/condition_variable/thread trusted; Wait()=join not under contract; single-worker FIFO is the List FIFO, checked '
                 'bounded on real memory (N<=6/10). Assumes fewer than 2^61 jobs counted at once.',
         'design': 'DESIGN.md 6 C08, 5.C, A.6',
+    },
+    'C10': {
+        'text': 'Rely/guarantee contracts on the three per-policy state words of when::Any (None: _done flag; FirstFail: empty/error/value; '
+                'LastFail: 2*count countdown with value bit) with a ghost `elected` set inside the winning atomic step: each Consume is proved '
+                'to call Promise::Set exactly when it was elected, carrying its own outcome; LastFail: a failure is elected only as the last '
+                'input with no value arrived, a value iff it is the first value; FirstFail: first value at once, else the failure that won '
+                'empty->error is saved and published by the destructor; initial state from the constructor text satisfies the invariant.',
+        'note': 'SC atomics; inputs are consumed exactly once each (C09 contract) is the rely; Promise::Set is the C01 producer contract; '
+                'release of inputs (Retire) is C09.',
+        'design': 'DESIGN.md 6 C10, 5.B, A.5',
+    },
+    'C16': {
+        'text': 'R/G contracts on the OneShotEvent head (TryAdd push loop; SetImpl exchange + walk over a ghost pool: every registered job '
+                'called exactly once, next read before the call), Ready/Wait/TimedWait (returns / true only after all-done observed or own '
+                'waiter released; two-owner TimedWaiter freed by the last owner), Set/Call/Reset, Waiter::Call, TimedWaiter::Call; '
+                'AtomicCounter Add/Sub/SubEqual (Delete/Set by exactly the decrement that reaches zero; lemma: unique), SetDeleter, '
+                'WaitGroup::InsertRange accounting and its per-future lambda, CallCallback/DropCallback::Impl; plus the attach path of C01.',
+        'note': 'SC atomics; documented usage rules (Add only while non-zero, Reset at quiescence) are preconditions; the coroutine awaiters '
+                'of the event are in unit coro when registered; the variadic / iterator `range` lambdas are abstracted by a contract.',
+        'design': 'DESIGN.md 6 C16, 5.B, 5.E',
     },
     'C19': {
         'text': 'Every member function body of the FIBER atomic re-implementation and of the fault-injecting wrapper (both cv overloads) is '
